@@ -18,16 +18,18 @@ build=ok; go build ./... 2>/dev/null || build=FAIL
 tests=$(go test -vet=off -count=1 ./... 2>&1 | grep -c "^FAIL\|^---FAIL\|^--- FAIL")
 # demonstration: copy demo test files in, run, remove
 demo="n/a"
-if ls $dir/demo/homescript/*_test.go >/dev/null 2>&1; then
-  cp $dir/demo/homescript/*_test.go /repo/homescript/
-  if go test -vet=off -count=1 -run 'Seed' ./homescript/ >/tmp/scratch/demo.out 2>&1; then demo="PASSES-with-change(!)"; else demo="fails-with-change"; fi
-  git stash -q -- homescript ':!homescript/*seed*' 2>/dev/null
-  git apply -R $dir/patch.diff 2>/dev/null
-  git checkout -- . 2>/dev/null
-  cp $dir/demo/homescript/*_test.go /repo/homescript/
-  if go test -vet=off -count=1 -run 'Seed' ./homescript/ >/tmp/scratch/demo2.out 2>&1; then demo="$demo, passes-without"; else demo="$demo, FAILS-without(!)"; fi
-  rm -f /repo/homescript/*seed*_test.go
-  git stash drop -q 2>/dev/null
+demofiles=$(cd $dir/demo 2>/dev/null && find . -name '*_test.go' | sed 's|^\./||')
+if [ -n "$demofiles" ]; then
+  pkgs=$(for f in $demofiles; do echo "./$(dirname $f)/"; done | sort -u)
+  putdemo() { for f in $demofiles; do mkdir -p /repo/$(dirname $f); cp $dir/demo/$f /repo/$f; done; }
+  rmdemo() { for f in $demofiles; do rm -f /repo/$f; done; }
+  putdemo
+  if go test -vet=off -count=1 -run 'Seed' $pkgs >/tmp/scratch/demo.out 2>&1; then demo="PASSES-with-change(!)"; else demo="fails-with-change"; fi
+  rmdemo
+  git checkout -- .
+  putdemo
+  if go test -vet=off -count=1 -run 'Seed' $pkgs >/tmp/scratch/demo2.out 2>&1; then demo="$demo, passes-without"; else demo="$demo, FAILS-without(!)"; fi
+  rmdemo
   git checkout -- .
   git apply $dir/patch.diff
 fi
@@ -38,5 +40,5 @@ for chk in "$@"; do
   echo "  $chk: rc=$rc violations=$(echo "$out" | grep -c '^VIOLATION') | $(echo "$out" | grep -A1 '^VIOLATION' | sed -n 2p | cut -c1-220)"
 done
 git -C /repo checkout -- .
-rm -f /repo/homescript/*seed*_test.go
+for f in ${demofiles:-}; do rm -f /repo/$f; done
 git -C /repo status --short | head -3
